@@ -18,11 +18,19 @@ static void nv_sort_values(NV_ELEM* first, NV_ELEM* last)
 {
   __CPROVER_assert(__CPROVER_same_object(first, nv_base) && __CPROVER_same_object(last, nv_base) && nv_base <= first && first <= last && last <= nv_base + nv_n, "std::sort: a sub-range of the values");
   int64_t n = last - first;
-  /* (cells are accessed through nv_base, the pointer that owns the block: `first` is known only through an equality) */
+  /* (cells are accessed through the pointer that OWNS the block (the one under __CPROVER_is_fresh): a pointer known only through
+   * an equality has no points-to set.  Default: the ghost nv_base owns it; NV_OWNER_PARAM: the caller's `begin` does, and `first`
+   * is derived from it) */
+#ifdef NV_OWNER_PARAM
+#define NV_VCELL(k) first[(k) - (first - nv_base)]
+  __CPROVER_havoc_object(first);
+#else
+#define NV_VCELL(k) nv_base[k]
   __CPROVER_havoc_object(nv_base);
+#endif
   int64_t p = nv_gp - (first - nv_base), q = nv_gq - (first - nv_base);
-  if (0 <= p && p < n) nv_ev = nv_base[nv_gp];
-  if (0 <= q && q < n) nv_ew = nv_base[nv_gq];
+  if (0 <= p && p < n) nv_ev = NV_VCELL(nv_gp);
+  if (0 <= q && q < n) nv_ew = NV_VCELL(nv_gq);
   if (0 <= p && p < n) __CPROVER_assume(NV_TOD(nv_ev) == NV_TOD(nv_ev));            /* not NaN */
   if (0 <= q && q < n) __CPROVER_assume(NV_TOD(nv_ew) == NV_TOD(nv_ew));
   if (0 <= p && p <= q && q < n) __CPROVER_assume(nv_ev <= nv_ew);
@@ -32,7 +40,7 @@ static void nv_sort_values(NV_ELEM* first, NV_ELEM* last)
   /* the cells at positions 0 and n-1 (min / max of a sorted list), named by prophecy ghosts */
   if (first == nv_base && n == nv_n && n > 0)
   {
-    __CPROVER_assume(NV_IDENT(NV_TOD(nv_base[0]), nv_vmin) && NV_IDENT(NV_TOD(nv_base[nv_n - 1]), nv_vmax));
+    __CPROVER_assume(NV_IDENT(NV_TOD(NV_VCELL(0)), nv_vmin) && NV_IDENT(NV_TOD(NV_VCELL(nv_n - 1)), nv_vmax));
     if (0 <= p && p < n) __CPROVER_assume(nv_vmin <= nv_gv && nv_gv <= nv_vmax);
   }
 #endif
